@@ -21,7 +21,7 @@ RULE = ("Two generators. (generic) files of key=value lines over the SpikeGLX gr
 ASSUMPTIONS = ["numeric values made only of [0-9,.] that are neither a scalar nor an integer list (e.g. '1,,2', ',') are "
                "outside the property's grammar and are not generated",
                "exponent notation is never generated as input (SpikeGLX writes positional decimals)"]
-BUDGET = {"quick": 12000, "thorough": 400000}
+BUDGET = {"quick": 8000, "thorough": 400000}
 
 _KEYCHARS = "abcdefghijklmnopqrstuvwxyzABCDEFGHIJKLMNOPQRSTUVWXYZ0123456789_.-:;()[] /"
 _STRCHARS = "abcdefghijklmnopqrstuvwxyzABCDEFGHIJKLMNOPQRSTUVWXYZ0123456789_.-:;()[]{} /=,~+*#@!?<>\\'\"%&|^$"
@@ -80,7 +80,7 @@ def _probe(draw):
     if draw(st.integers(0, 7)) == 0:
         spec = draw(gm.st_nidq(ns_range=(1, 10 ** 7)))
     else:
-        spec = draw(gm.st_spec(allow_nosync=True, ns_range=(1, 10 ** 7)))
+        spec = draw(gm.st_spec(allow_nosync=True, ns_range=(1, 10 ** 7), allow_offset=True))
     return {"mode": "probe", "spec": spec}
 
 
@@ -111,7 +111,13 @@ def known_small_float(case, f):
     return f.kind == "C09.roundtrip.small_float"
 
 
-KNOWN = {"small_float_exponent": known_small_float}
+def known_non_prefix_gain(case, f):
+    """NP1 gains read from the first n IMRO entries instead of the entries of the saved (original) channel numbers."""
+    return (case.get("mode") == "probe" and case["spec"].get("first_chan", 0) > 0
+            and f.kind in ("C09.sample2volts", "C09.range_volts", "C09.gain_ap", "C09.gain_lf"))
+
+
+KNOWN = {"small_float_exponent": known_small_float, "non_prefix_subset_gain": known_non_prefix_gain}
 
 
 def _roundtrip(ctx, sg, d, text_path, d1):
@@ -202,6 +208,8 @@ def run_case(case, ctx):
                     ctx.label("nonuniform_gains")
             if spec["n"] < spec["n_acq"]:
                 ctx.label("subset")
+            if spec.get("first_chan", 0) > 0:
+                ctx.label("non_prefix_subset")
         if spec["ns"] / spec["fs"] < 1e-4:
             ctx.label("tiny_float")
         _roundtrip(ctx, sg, d, p, d1)
